@@ -282,7 +282,13 @@ class Gen:
         if unit and self.r.random() < 0.5: lo, hi, c = 0, "inf", 0.0     # the Repeated::go fast loop (0..inf) is separate code
         if c < 0.5: base = ["IRep", item, lo, hi]
         elif c < 0.85:
-            sep = self.g(max(d - 1, 0), True) if self.r.random() < 0.3 else ["Just", [COMMA]]
+            cs = self.r.random()
+            # separators that can fail after consuming input (multi-token just, sequences, padding) exercise the rewinds of SeparatedBy::next
+            if cs < 0.5: sep = ["Just", [COMMA]]
+            elif cs < 0.65: sep = ["Just", [COMMA, self.r.choice([COMMA, 59, self.tok()])]]
+            elif cs < 0.72: sep = ["Then", ["Just", [COMMA]], ["Just", [self.tok()]]]
+            elif cs < 0.78: sep = ["PaddedBy", ["Just", [COMMA]], ["RepUnit", ["IRep", ["Just", [32]], 0, "inf"]]]
+            else: sep = self.g(max(d - 1, 0), True)
             base = ["ISep", item, sep, lo, hi, self.r.randint(0, 1), self.r.randint(0, 1)]
         elif c < 0.93 and "JustCfg" in self.ctors: base = ["IRepCfg", item, lo, hi, self.r.choice([0, 0, 1, 2, 3])]
         elif not unit: base = ["IOrNot", item]
